@@ -40,7 +40,19 @@ WriteWith(i, callfmt) == /\ i \in DOMAIN insts
                          /\ script' = Append(script, [op |-> "Write", i |-> i, callfmt |-> callfmt])
                          /\ used' = IF callfmt # "" THEN callfmt ELSE heap[insts[i].obj].format
                          /\ UNCHANGED <<heap, insts>>
-Step == (\E f \in GoodOptSets : New(f)) \/ (\E i \in 1..MaxInst, c \in {"", "cdx15", "spdx23"} : WriteWith(i, c))
+\* a call through the recording driver: the format options / render options given to the call are the ones the
+\* driver sees; what was not given comes from the instance.  Nothing persists.
+Effective(i, callfopt, callindent) ==
+  [fopt   |-> IF callfopt # "" THEN callfopt ELSE heap[insts[i].obj].fopt,
+   indent |-> IF callindent # "" THEN callindent ELSE heap[insts[i].obj].indent]
+CallWith(i, callfopt, callindent) ==
+  /\ i \in DOMAIN insts
+  /\ script' = Append(script, [op |-> "WriteCall", i |-> i, callfopt |-> callfopt, callindent |-> callindent])
+  /\ used' = Effective(i, callfopt, callindent).fopt \o "/" \o Effective(i, callfopt, callindent).indent
+  /\ UNCHANGED <<heap, insts>>
+Step == \/ \E f \in GoodOptSets : New(f)
+        \/ \E i \in 1..MaxInst, c \in {"", "cdx15", "spdx23"} : WriteWith(i, c)
+        \/ \E i \in 1..MaxInst, cf \in {"", "c1"}, ci \in {"", "3"} : CallWith(i, cf, ci)
 Finish == Len(script) = MaxSteps + 1 /\ script' = Append(script, [op |-> "End"]) /\ UNCHANGED <<heap, insts, used>>
 Next == (Len(script) <= MaxSteps /\ Step) \/ Finish
 Spec == Init /\ [][Next]_vars
